@@ -138,3 +138,41 @@ def dec_dangling(value: str, i: int) -> bool:
     if codepoint(value[i]) <= 31:
         return False
     return dec_dangling(value, i + 1)
+
+
+# ---- I-Regexp to regex-engine dialect (function_extensions/_pattern.py, C11) ----------------------------------------
+def mre_esc(p: str, k: int) -> bool:
+    """after the first k characters: the next character is escaped (an odd run of backslashes precedes it)"""
+    if k <= 0:
+        return False
+    if mre_esc(p, k - 1):
+        return False
+    return p[k - 1] == "\\"
+
+
+def mre_cls(p: str, k: int) -> bool:
+    """after the first k characters: inside a character class (an unescaped '[' not yet closed by an unescaped ']')"""
+    if k <= 0:
+        return False
+    if mre_esc(p, k - 1):
+        return mre_cls(p, k - 1)
+    if p[k - 1] == "[":
+        return True
+    if p[k - 1] == "]":
+        return False
+    return mre_cls(p, k - 1)
+
+
+def mre_parts(p: str, k: int) -> list:
+    """translation of the first k characters, one piece per character: an unescaped '.' outside a character class becomes the
+    expression for "any character but CR and LF" (RFC 9485 section 5.3, surrogate-pair aware), everything else is copied"""
+    if k <= 0:
+        return []
+    if not mre_esc(p, k - 1) and p[k - 1] == "." and not mre_cls(p, k - 1):
+        return mre_parts(p, k - 1) + ["(?:(?![\\r\\n])\\P{Cs}|\\p{Cs}\\p{Cs})"]
+    return mre_parts(p, k - 1) + [p[k - 1]]
+
+
+def mapped_pattern(p: str) -> str:
+    """the pattern handed to the regex engine for the I-Regexp p"""
+    return "".join(mre_parts(p, len(p)))
